@@ -9,6 +9,7 @@ use repe::{AsyncClient, Client, WebSocketClient};
 use serde::{Deserialize, Serialize};
 use serde_json::{Value, json};
 use std::collections::HashSet;
+use std::sync::Arc;
 use std::time::Duration;
 
 pub const RULE: &str = "K concurrent calls (threads for Client, tasks for AsyncClient and WebSocketClient) on clones of one client, each to its own path /c/<k>, against a scripted peer whose script is a generated valid interleaving of {receive next request, answer the j-th received request} so replies overtake later requests, with injected unknown-id responses, duplicated responses and (WebSocket) notify frames reusing an in-flight id; all K! reply orders for K<=tier bound (exhaustive) plus random scripts up to K=64, and batch_json; oracle: call k returns the body carrying k, batch results are positionally aligned, every injected notify reaches the subscriber exactly once and no caller, all ids on the connection are pairwise distinct; non-trivial = K>=2 with reply order != request order, or at least one injected frame; distinct = case hash";
@@ -619,7 +620,175 @@ fn forward_case() -> BoxedStrategy<Forward> {
         .boxed()
 }
 
+// ------------------------------------------- response overtakes the returning writer
+
+/// The caller is held (verif-hooks probe `client.written`) right after its request
+/// was flushed, until the scripted peer has answered and the client's reader has had
+/// time to process that answer: the legitimate schedule in which the response is
+/// handled before the calling thread/task gets to run again. The call must still
+/// receive its own response.
+#[derive(Debug, Clone, Serialize, Deserialize, Hash, PartialEq, Eq)]
+pub struct Overtake {
+    pub client: ClientKind,
+    /// sequential calls on the one connection
+    pub calls: u8,
+    /// how long the caller stays held after the peer has written the response
+    pub hold_ms: u8,
+    /// calls (bitmask) for which the caller is held
+    pub hold_mask: u8,
+}
+
+pub fn check_overtake(c: &Overtake) -> CheckResult {
+    use std::sync::atomic::{AtomicU32, Ordering};
+    use std::sync::mpsc;
+    let (sent_tx, sent_rx) = mpsc::channel::<()>();
+    let sent_rx = std::sync::Mutex::new(sent_rx);
+    let armed = Arc::new(AtomicU32::new(0)); // 1 = hold the next "client.written"
+    let hits = Arc::new(AtomicU32::new(0));
+    let hold = Duration::from_millis(c.hold_ms as u64);
+    let handler = {
+        let armed = armed.clone();
+        let hits = hits.clone();
+        Arc::new(move |point: &'static str| {
+            if point != "client.written" || armed.swap(0, Ordering::SeqCst) != 1 {
+                return;
+            }
+            hits.fetch_add(1, Ordering::SeqCst);
+            // wait until the peer has put the response on the wire, then give the
+            // client's reader time to take it
+            let _ = sent_rx.lock().unwrap().recv_timeout(Duration::from_secs(5));
+            std::thread::sleep(hold);
+        })
+    };
+    let n = c.calls.max(1) as usize;
+    let results: Vec<Result<Value, String>> = crate::engine::probe::with_global_handler(handler, || {
+        block_on(async {
+            let (listener, addr) = listen().await.map_err(|e| Fail::new("harness-listen", e.to_string()))?;
+            // the peer answers every request at once and reports that it has done so
+            async fn peer<IO: FrameIo>(io: &mut IO, n: usize, sent: mpsc::Sender<()>) {
+                for _ in 0..n {
+                    let Ok(Some(f)) = io.recv().await else { return };
+                    let body = serde_json::to_vec(&json!({"path": f.path()})).unwrap();
+                    if io.send(&response_frame(&f, 0, 2, &body)).await.is_err() {
+                        return;
+                    }
+                    let _ = sent.send(());
+                }
+            }
+            let mask = c.hold_mask;
+            let held_call = move |i: usize| u32::from(mask >> (i % 8) & 1 == 1);
+            let out;
+            match c.client {
+                ClientKind::Blocking => {
+                    let addr_s = addr.to_string();
+                    let client = tokio::task::spawn_blocking(move || Client::connect(addr_s))
+                        .await
+                        .unwrap()
+                        .map_err(|e| Fail::new("harness-connect", e.to_string()))?;
+                    let mut io = accept_tcp(&listener).await.map_err(|e| Fail::new("harness-accept", e.to_string()))?;
+                    let (armed, cl0) = (armed.clone(), client.clone());
+                    let callers = async move {
+                        let mut res = Vec::new();
+                        for i in 0..n {
+                            armed.store(held_call(i), Ordering::SeqCst);
+                            let cl = cl0.clone();
+                            let r = tokio::task::spawn_blocking(move || cl.call_json_with_timeout(format!("/o/{i}"), &json!({"i": i}), call_timeout()).map_err(|e| e.to_string()))
+                                .await
+                                .map_err(|_| Fail::new("panic", "caller panicked"))?;
+                            res.push(r);
+                        }
+                        Ok::<_, Fail>(res)
+                    };
+                    let (res, _) = tokio::join!(callers, peer(&mut io, n, sent_tx.clone()));
+                    out = res?;
+                    drop(client);
+                    io.close().await;
+                }
+                ClientKind::Async => {
+                    let client = AsyncClient::connect(addr).await.map_err(|e| Fail::new("harness-connect", e.to_string()))?;
+                    let mut io = accept_tcp(&listener).await.map_err(|e| Fail::new("harness-accept", e.to_string()))?;
+                    let (armed, cl0) = (armed.clone(), client.clone());
+                    let callers = async move {
+                        let mut res = Vec::new();
+                        for i in 0..n {
+                            armed.store(held_call(i), Ordering::SeqCst);
+                            let cl = cl0.clone();
+                            // on its own task, so that the held worker thread is not the one driving the peer
+                            let r = tokio::spawn(async move { cl.call_json_with_timeout(format!("/o/{i}"), &json!({"i": i}), call_timeout()).await.map_err(|e| e.to_string()) })
+                                .await
+                                .map_err(|_| Fail::new("panic", "caller panicked"))?;
+                            res.push(r);
+                        }
+                        Ok::<_, Fail>(res)
+                    };
+                    let (res, _) = tokio::join!(callers, peer(&mut io, n, sent_tx.clone()));
+                    out = res?;
+                    drop(client);
+                    io.close().await;
+                }
+                ClientKind::Ws => {
+                    let url = format!("ws://{addr}");
+                    let (client, io) = tokio::join!(WebSocketClient::connect(&url), accept_ws(&listener));
+                    let client = client.map_err(|e| Fail::new("harness-connect", e.to_string()))?;
+                    let mut io = io.map_err(|e| Fail::new("harness-accept", e.to_string()))?;
+                    let (armed, cl0) = (armed.clone(), client.clone());
+                    let callers = async move {
+                        let mut res = Vec::new();
+                        for i in 0..n {
+                            armed.store(held_call(i), Ordering::SeqCst);
+                            let cl = cl0.clone();
+                            let r = tokio::spawn(async move { cl.call_json_with_timeout(format!("/o/{i}"), &json!({"i": i}), call_timeout()).await.map_err(|e| e.to_string()) })
+                                .await
+                                .map_err(|_| Fail::new("panic", "caller panicked"))?;
+                            res.push(r);
+                        }
+                        Ok::<_, Fail>(res)
+                    };
+                    let (res, _) = tokio::join!(callers, peer(&mut io, n, sent_tx.clone()));
+                    out = res?;
+                    drop(client);
+                    io.close().await;
+                }
+            }
+            Ok::<_, Fail>(out)
+        })
+    })?;
+    for (i, r) in results.iter().enumerate() {
+        let v = r.as_ref().map_err(|e| {
+            Fail::new(
+                "overtaken-call-failed",
+                format!(
+                    "{:?}: call {i} failed although the peer answered it ({}held after its write): {e}",
+                    c.client,
+                    if c.hold_mask >> (i % 8) & 1 == 1 { "" } else { "not " }
+                ),
+            )
+        })?;
+        ensure!(
+            v.get("path").and_then(Value::as_str) == Some(&format!("/o/{i}")),
+            "wrong-response",
+            "{:?}: call {i} received {v}",
+            c.client
+        );
+    }
+    let held = hits.load(Ordering::SeqCst);
+    Ok(CaseInfo::new(held > 0).class(format!("{:?}", c.client)).class(format!("held={}", held.min(4))))
+}
+
+fn overtake_case() -> BoxedStrategy<Overtake> {
+    (prop::sample::select(vec![ClientKind::Blocking, ClientKind::Async, ClientKind::Ws]), 1u8..5, prop_oneof![Just(0u8), 1u8..25], 1u8..16)
+        .prop_map(|(client, calls, hold_ms, hold_mask)| Overtake {
+            client,
+            calls,
+            hold_ms,
+            hold_mask,
+        })
+        .boxed()
+}
+
 pub fn run(ctx: &Ctx, rep: &Report) {
+    // one case at a time: the probe handler is process-wide
+    run_prop_threads(ctx, rep, "overtake", ctx.tier.pick(150, 3_000), 1, &|| overtake_case(), &check_overtake);
     run_prop(ctx, rep, "forward", ctx.tier.pick(600, 12_000), &|| forward_case(), &check_forward);
     let ex = exhaustive_cases(ctx.tier.pick(5, 6));
     run_enum(ctx, rep, "permutations", &ex, true, &check);
@@ -630,6 +799,7 @@ pub fn replay(sub: &str, case: &serde_json::Value) -> Result<(), Fail> {
     match sub {
         "permutations" | "random" => replay_case::<Case>(case, &check),
         "forward" => replay_case::<Forward>(case, &check_forward),
+        "overtake" => replay_case::<Overtake>(case, &check_overtake),
         _ => Err(Fail::new("replay-unknown-sub", sub.to_string())),
     }
 }
